@@ -1477,7 +1477,51 @@ fn t_oneshot_borrowed(cfg: &Cfg) {
 /// shared single-consumer oneshot: sender and receiver handles on different threads; the
 /// sender sends or just goes away, the receiver receives (with cancellations) or goes away early,
 /// and a receive future may outlive its receiver handle
+/// "orphan" execution of the shared single-consumer oneshot: the receive future outlives the
+/// receiver handle it was made from (dropping that handle closes the channel) while the sender
+/// sends, or goes away without sending, on another thread. A send that reported success must be
+/// what the parked future yields — the close that follows does not take an accepted value away —
+/// and a future that yields a value implies a successful send; a future nobody wakes is a deadlock.
+fn t_oneshot_orphan(_cfg: &Cfg) {
+    let (tx, rx) = sh::generic_oneshot_channel::<M, u32>();
+    let obs = tx.verif_observer();
+    let sent_ok = Arc::new(AtomicU64::new(0));
+    let h_tx = {
+        let sent_ok = sent_ok.clone();
+        thread::spawn(move || {
+            if draw(2) == 0 {
+                thread::yield_now();
+            }
+            if draw(3) == 0 {
+                drop(tx);
+                return;
+            }
+            match tx.send(7) {
+                Ok(()) => sent_ok.store(1, SeqCst),
+                Err(e) => {
+                    if e.0 != 7 {
+                        violation("C11", "wrong-value-returned", format!("a failed send handed back {} instead of 7", e.0));
+                    }
+                }
+            }
+        })
+    };
+    let fut = rx.receive();
+    let got = block_on(FusedCheck { fut: DropHandleAfterFirstPendingFused(DropHandleAfterFirstPending { fut, handle: Some(rx) }) });
+    h_tx.join().unwrap();
+    match (got, sent_ok.load(SeqCst)) {
+        (Some(7), 1) | (None, 0) => {}
+        (Some(v), 1) => violation("C12", "wrong-value", format!("the receiver got {} but 7 was sent", v)),
+        (Some(v), _) => violation("C12", "value-from-nowhere", format!("the receiver got {} although no send succeeded", v)),
+        (None, _) => violation("C12", "value-lost", "send reported success but the only receive future, parked before the send, yielded None".into()),
+    }
+    queues_must_be_empty("oneshot channel", obs.verif_snapshot(&mut |_| false));
+}
+
 fn t_oneshot_shared_single(cfg: &Cfg) {
+    if cfg_get(cfg, "orphan", 0) != 0 {
+        return t_oneshot_orphan(cfg);
+    }
     let p_budget = cfg_get(cfg, "p_budget", 0) as u64;
     let (tx, rx) = sh::generic_oneshot_channel::<M, u32>();
     let obs = tx.verif_observer();
@@ -1606,6 +1650,7 @@ fn cfg_oneshot(rng: &mut Rng) -> Cfg {
     // 0 = shared broadcast with receiver churn, 1 = borrowed single-consumer, 2 = borrowed broadcast,
     // 3 = shared single-consumer
     c.insert("mode".into(), rng.below(4) as i64);
+    c.insert("orphan".into(), rng.pct(30) as i64);
     c
 }
 
